@@ -21,5 +21,5 @@ cSqPrefix == <<"a", " ", cSQ, "q", cSQ, "+">>
 cMbPrefix == <<"E", " ", "/", "*", "E", cLF, "*", "/", cSQ, "E", cLF, cSQ, cTAB>>
 \* token level: whole lexemes
 TokAlphabet == { <<"k">>, <<"a","r","g">>, <<cDQ,"s"," ",cLF," "," ","t",cDQ>>, <<cSQ,"q",cSQ>>, <<"+">>, <<cDQ,"+",cDQ>>, <<";">>, <<"{">>, <<"}">>,
-                 <<"/","/","c",cLF>>, <<"/","*","c","*","/">>, <<" ">>, <<cLF>>, <<cCR,cLF>> }
+                 <<"/","/","c",cLF>>, <<"/","*","c","*","/">>, <<"/","*",cLF,"E",cLF,"*","/">>, <<cSQ,cLF,cLF,"q",cSQ>>, <<" ">>, <<cLF>>, <<cCR,cLF>> }
 ====
